@@ -944,6 +944,9 @@ def run_loop_race(case, ctx):
     import nfc.llcp.llc as L
     P = nfc.llcp.pdu
     s = vsched.Sched(case["choices"], seed=0, step_budget=40000)
+    if case.get("line") is not None:
+        s.line_trace = True
+        s.line_preempt = [list(x) for x in case["line"]]
     vsched.activate(s)
     out = {"link": None, "apps": {}}
     DLC, LDL = nfc.llcp.DATA_LINK_CONNECTION, nfc.llcp.LOGICAL_DATA_LINK
@@ -953,7 +956,9 @@ def run_loop_race(case, ctx):
         llc = L.LogicalLinkController()
         llc.cfg["send-miu"] = 128
         llc.cfg["llcp-dpc"] = 0
-        events = [[] for _ in range(6)]      # PDUs the peer sends per round
+        # PDUs the peer sends per round; with a single round the link ends
+        # right behind the first dispatch / collect
+        events = [[] for _ in range(case.get("rounds", 6))]
         listener = None
         if any(p.startswith("accept") for p in parts):
             listener = nfc.llcp.Socket(llc, DLC)
@@ -963,11 +968,13 @@ def run_loop_race(case, ctx):
             if "accept-two" in parts:
                 events[0].append(P.Connect(35, 42, 128, 1))
             if "accept-close" in parts:
-                events[2].append(P.Information(35, 41, 0, 0, b"data"))
+                events[min(2, len(events) - 1)].append(
+                    P.Information(35, 41, 0, 0, b"data"))
         if any(p.startswith("ldl") for p in parts) or "accept+ldl" == prog:
             base = nfc.llcp.Socket(llc, LDL)
             base.bind(33)
-            events[1].append(P.UnnumberedInformation(33, 20, b"dgram"))
+            events[min(1, len(events) - 1)].append(
+                P.UnnumberedInformation(33, 20, b"dgram"))
 
         def app_accept():
             c = listener.accept()
@@ -1067,11 +1074,20 @@ def run_loop_race(case, ctx):
         s.sleep(5.0)
         s.settle()
         blocked = [repr(t) for t in s.blocked()]
+        nlines = dict((t.name, t.nlines) for t in s.threads)
+        preempted = s.line_preempted
     finally:
         s.shutdown()
         vsched.activate(None)
+    if case.get("count_lines"):
+        return nlines
+    if case.get("line") is not None:
+        ctx.label("line-preempted:%d" % preempted)
     ctx.set_class("loop-race/" + prog)
-    if any(out["apps"].get(n) == "returned" for n in names):
+    if case.get("line") is not None:
+        if preempted:
+            ctx.nontrivial()
+    elif any(out["apps"].get(n) == "returned" for n in names):
         ctx.nontrivial()
     if isinstance(out["link"], BaseException):
         raise unexpected(out["link"], "link-loop-raises",
@@ -1088,12 +1104,48 @@ def run_loop_race(case, ctx):
         ctx.label("%s:%s" % (name, r))
 
 
+class _NoCtx(object):
+    def label(self, *a):
+        pass
+
+    def nontrivial(self):
+        pass
+
+    def set_class(self, c):
+        pass
+
+
+def enum_line_race(tier, seed):
+    """one preemption at every source line: for each program, thread
+    (application / link) and every n up to the number of lines that thread
+    executes inside nfcpy in the undisturbed run, the thread loses the CPU
+    before its n-th line and the other one runs on (until it blocks or
+    ends)"""
+    progs = LOOP_PROGS[:6]
+    step = 1 if tier == "thorough" else 2
+    for prog in progs:
+        for rounds in (1, 2, 6):
+            base = {"prog": prog, "rounds": rounds, "choices": [], "line": []}
+            n = run_loop_race(dict(base, count_lines=True), _NoCtx())
+            for name, total in sorted(n.items()):
+                if name == "controller" or not total:
+                    continue
+                # the link thread's many rounds repeat themselves: sample
+                lim = total if name != "link" else min(total, 700)
+                for k in range(1, lim + 1, step):
+                    yield dict(base, line=[[name, k]])
+
+
 def enum_loop_race(tier, seed):
     import itertools
     n = 9 if tier == "quick" else 13
     for prog in LOOP_PROGS:
         for choices in itertools.product((0, 1), repeat=n):
             yield {"prog": prog, "choices": list(choices)}
+        for rounds in (1, 2):
+            for choices in itertools.product((0, 1), repeat=n - 1):
+                yield {"prog": prog, "rounds": rounds,
+                       "choices": list(choices)}
         # three contenders: also third-thread picks on a thinner grid
         if "+" in prog:
             for choices in itertools.product((0, 1, 2), repeat=n - 3):
@@ -1103,7 +1155,8 @@ def enum_loop_race(tier, seed):
 LEGS = [
     Leg("loop-race", run=run_loop_race, enum=enum_loop_race, exhaustive=True,
         shards_quick=8, shards_thorough=16,
-        rule="one controller; a link thread runs six run-loop rounds "
+        rule="one controller; a link thread runs six (also: one, two) "
+             "run-loop rounds "
              "(dispatch of the scripted peer's PDUs, two collect() calls, the "
              "peer reacting with CC / DM / SDRES / RR) and then terminate(), "
              "while 1-2 application threads make progress on the structures "
@@ -1117,6 +1170,17 @@ LEGS = [
              "application thread returns or raises nfc.llcp.Error.  "
              "Non-trivial = an application program ran to its end while the "
              "link loop was at work."),
+    Leg("line-race", run=run_loop_race, enum=enum_line_race, exhaustive=True,
+        shards_quick=16, shards_thorough=16,
+        rule="the scenes of loop-race (single programs, 1 / 2 / 6 link "
+             "rounds) with ONE preemption at source-line granularity "
+             "(vsched line_preempt): for the application thread and for the "
+             "link thread, before every (quick: every second) line it "
+             "executes inside nfcpy - also where nfcpy has no "
+             "synchronisation point, e.g. between accept() handing out a "
+             "connection and its registration - the thread loses the CPU and "
+             "the other one runs until it blocks or ends.  Same oracle as "
+             "loop-race.  Non-trivial = the preemption took place."),
     Leg("dlc-eol", run=run_eol, enum=enum_eol, exhaustive=True,
         shards_quick=16, shards_thorough=16,
         rule="an established data link connection (connecting / accepted "
